@@ -8,6 +8,7 @@ package sarama
 import (
 	"time"
 
+	"github.com/eapache/go-resiliency/breaker"
 	"github.com/rcrowley/go-metrics"
 )
 
@@ -256,3 +257,5 @@ func vDecompress(cc CompressionCodec, data []byte) ([]byte, error) {
 }
 
 func time0() (t time.Time) { return }
+
+func vBreaker() *breaker.Breaker { return breaker.New(3, 1, 10*time.Second) }
